@@ -18,10 +18,12 @@ Section DecPresc.
   Hypothesis Hvz : void_variants_zero S = true.
   Notation T := (presc_tbl S false).
 
+  Lemma unbox_presc t : unbox (presc_rop t) = presc_rop t.
+  Proof. destruct t; reflexivity. Qed.
   Lemma rres_presc : forall f t, rres T f (presc_rop t) = presc_rop (resolve_n S f t).
   Proof.
-    induction f as [|f IH]; intros t; [reflexivity|]. destruct t; try reflexivity.
-    cbn [presc_rop rres resolve_n]. rewrite row_presc. destruct (lookup S n) as [[| | |t']|]; try reflexivity.
+    induction f as [|f IH]; intros t; [apply unbox_presc|]. destruct t; try reflexivity.
+    cbn [presc_rop rres unbox resolve_n]. rewrite row_presc. destruct (lookup S n) as [[| | |t']|]; try reflexivity.
     cbn [presc_row]. apply IH.
   Qed.
   Lemma rres_res t : rres T (vfuel T) (presc_rop t) = presc_rop (resolve S t).
